@@ -59,8 +59,8 @@ func drawSealed(t *rapid.T, big bool) *sealedCase {
 
 func (sc *sealedCase) replay() map[string]any {
 	return map[string]any{
-		"key_private": hx(sc.Key.Priv.Bytes()), "key_config": hx(sc.Key.Config), "suite": sc.Suite,
-		"record": hx(sc.Record), "want_inner_msg": hx(sc.WantInner),
+		"keys": keysReplay([]*hello.Key{sc.Key}), "client_stream": hx(sc.Record), "expect": "accept_exact",
+		"want_inner_msg": hx(sc.WantInner), "want_server_name": sc.Tuple.InnerName, "want_alpn": sc.Tuple.InnerALPN, "suite": sc.Suite,
 		"run_start": sc.Tuple.RunStart, "run_len": sc.Tuple.RunLen, "pad": sc.Tuple.Pad,
 		"inner_layout": hello.Layout(sc.Tuple.Inner.Exts), "outer_layout": hello.Layout(sc.Tuple.Outer.Exts),
 	}
